@@ -120,7 +120,9 @@ struct PHist {
         auto do_unlock = [&] { if (encrypted && locked) { bool ok = ws.wallet().Unlock(pass); VCHECK(ok, "c43.harness", "unlock failed"); locked = false; } };
 
         auto begin_op = [&](const char* kind, bool atomic) { Snapshot(ws); Mark(std::string("op-begin ") + kind + (atomic ? " 1" : " 0")); };
-        auto end_op = [&](const char* kind) { sim.SyncSignals(); Mark(std::string("op-end ") + kind); op_classes.insert(kind); ++n_ops; };
+        // the snapshot "after" is taken right at the end of the operation, the snapshot "before" right at its start: whatever the harness
+        // does between two operations (address for the next payment, top-up normalisation, ...) lies between two snapshots of its own
+        auto end_op = [&](const char* kind) { sim.SyncSignals(); Mark(std::string("op-end ") + kind); Snapshot(ws); op_classes.insert(kind); ++n_ops; };
 
         auto restart = [&] {
             sim.SyncSignals();
@@ -139,6 +141,8 @@ struct PHist {
             }
             const size_t n_wtx = WITH_LOCK(ws.wallet().cs_wallet, return ws.wallet().mapWallet.size());
             begin_op("reload", false);
+            // a clean unload (RemoveWallet) records the best block before it disconnects from the chain; WalletSim::Unload only destroys the object
+            WITH_LOCK(ws.wallet().cs_wallet, ws.wallet().WriteBestBlock());
             std::string err;
             bool ok = ws.Reload(&err);
             st.steps++;
@@ -184,10 +188,10 @@ struct PHist {
                 unsigned nw = s.range<unsigned>(1, 2);
                 std::vector<CTxOut> outs;
                 CAmount rest = in.second.value - FEE;
+                begin_op("receive", false);
                 for (unsigned i = 0; i < nw; ++i) { CAmount v = rest / 4; rest -= v; outs.emplace_back(v, wallet_script()); }
                 outs.emplace_back(rest, P2WSH_OP_TRUE);
                 CTransactionRef tx = MakeTransactionRef(sim.MakeTx({in}, outs));
-                begin_op("receive", false);
                 auto res = ws.Submit(tx);
                 end_op("receive");
                 if (res.m_result_type != MempoolAcceptResult::ResultType::VALID) { st.cls("receive-rejected"); continue; }
@@ -197,7 +201,8 @@ struct PHist {
                 st.note("receive x", nw);
             } else if (kind == 4 || kind == 5) {
                 begin_op("block", false);
-                auto m = ws.Mine(sim.TipHash(), ws.MempoolTxs(), s.chance(64) ? wallet_script() : CScript(), ++extra_nonce);
+                const CScript cb_spk = s.chance(64) ? wallet_script() : CScript();
+                auto m = ws.Mine(sim.TipHash(), ws.MempoolTxs(), cb_spk, ++extra_nonce);
                 end_op("block");
                 VCHECK(m.delivery.processed, "c43.harness", "block rejected");
                 if (crash_mode) AppendPlan(side + "/plan.bin", *m.block);
@@ -213,14 +218,14 @@ struct PHist {
                 if (c.value < 3 * FEE + 2000) continue;
                 // CommitTransaction's contract (CreateTransaction only selects such coins): the transaction that created the coin is in the wallet
                 if (!WITH_LOCK(ws.wallet().cs_wallet, return ws.wallet().mapWallet.count(it->first.hash))) continue;
+                begin_op("send", false);
                 auto chg = ws.wallet().GetNewChangeDestination(OutputType::BECH32);
-                if (!chg) continue;
+                if (!chg) { end_op("send"); continue; }
                 std::vector<CTxOut> outs{CTxOut((c.value - FEE) / 2, P2WSH_OP_TRUE), CTxOut(c.value - FEE - (c.value - FEE) / 2, GetScriptForDestination(*chg))};
                 auto mtx = ws.MakeTx({{it->first, RefCoin{c.value, c.spk, c.height, c.coinbase}}}, outs);
-                if (!mtx) continue;
+                if (!mtx) { end_op("send"); continue; }
                 CTransactionRef tx = MakeTransactionRef(*mtx);
                 const bool broadcast = !s.chance(64);
-                begin_op("send", false);
                 ws.wallet().CommitTransaction(tx, std::nullopt, std::string("comment ") + util::ToString(op), s.boolean() ? std::optional<std::string>("to someone") : std::nullopt);
                 if (broadcast) ws.Submit(tx); else ws.Track(tx);
                 end_op("send");
